@@ -79,6 +79,35 @@ def _tracked_flags(ctx: Ctx, fi: FuncInfo, option_fields: list[str]) -> tuple[di
         if isinstance(arg, ast.Constant) and isinstance(arg.value, str):
             out[arg.value] = arg.value
             continue
+        if isinstance(arg, ast.Attribute) and isinstance(arg.value, ast.Name):
+            # a table of small records: for flag in TABLE: ... getattr(ns, flag.dest, S) ... S.add(flag.option_field)
+            loops_ = [h for h in flow.cfg.nodes if h.kind == "for" and n in flow.loop_body_nodes(h) and isinstance(h.ast.target, ast.Name) and h.ast.target.id == arg.value.id]
+            done = False
+            for h in loops_[-1:]:
+                lit = _table_literal(ctx, fi, flow, h.ast.iter, h)
+                dest_attr = None
+                for m_ in flow.loop_body_nodes(h):
+                    for c2 in flow.calls_in(m_):
+                        if isinstance(c2.func, ast.Name) and c2.func.id == "getattr" and len(c2.args) >= 2 and isinstance(c2.args[1], ast.Attribute) \
+                                and isinstance(c2.args[1].value, ast.Name) and c2.args[1].value.id == arg.value.id:
+                            dest_attr = c2.args[1].attr
+                if isinstance(lit, (ast.Tuple, ast.List)) and dest_attr is not None:
+                    for e in lit.elts:
+                        if not isinstance(e, ast.Call):
+                            continue
+                        ci = ctx.repo.resolve_expr(e.func, fi.module, fi) if isinstance(e.func, (ast.Name, ast.Attribute)) else None
+                        if not isinstance(ci, ClassInfo):
+                            continue
+                        fields_ = dataclass_fields(ci)
+                        vals_ = {f_: a for f_, a in zip(fields_, e.args)}
+                        vals_.update({k.arg: k.value for k in e.keywords if k.arg})
+                        d_, f_ = vals_.get(dest_attr), vals_.get(arg.attr)
+                        if isinstance(d_, ast.Constant) and isinstance(f_, ast.Constant):
+                            out[d_.value] = f_.value
+                            done = True
+                    table_node = lit
+            if done:
+                continue
         if not isinstance(arg, ast.Name):
             raise AnalysisError(f"explicit-flags entry `{norm(arg)}` is not a loop variable or a constant")
         loops = [h for h in flow.cfg.nodes if h.kind == "for" and n in flow.loop_body_nodes(h)]
@@ -430,6 +459,11 @@ def _check_merge_guards(ctx: Ctx, merge: FuncInfo, cfg_cls: ClassInfo) -> None:
     head = loops[0]
     # the loop runs over fields(FlowmarkConfig)
     it = expand_expr(prog, merge, head.ast.iter, head, strict=False)
+    if isinstance(it, ast.Name):
+        # names = [f.name for f in fields(C)] ... for name in names
+        ds_ = flow.reaching(head, it.id)
+        if len(ds_) == 1 and ds_[0].kind == "assign" and isinstance(ds_[0].value, (ast.GeneratorExp, ast.ListComp)):
+            it = ds_[0].value
     if isinstance(it, (ast.GeneratorExp, ast.ListComp)) and len(it.generators) == 1 and not it.generators[0].ifs:
         it = it.generators[0].iter  # (f.name for f in fields(C)): still one element per field
     ok_iter = isinstance(it, ast.Call) and call_name(prog, merge, it) == "dataclasses.fields" and it.args and \
@@ -460,7 +494,7 @@ def _check_merge_guards(ctx: Ctx, merge: FuncInfo, cfg_cls: ClassInfo) -> None:
             if succ_ and sn not in flow.cfg.reachable_from(succ_[0], avoid={head}) and succ_[0] is not sn:
                 from ..inline import clone
 
-                cond = _Pos().visit(clone(t.ast))
+                cond = _Pos().visit(expand_expr(prog, merge, t.ast, t, strict=False))  # (a clone, temporaries read through)
                 if want_lab == "F":
                     cond = ast.UnaryOp(op=ast.Not(), operand=cond)
                 ast.fix_missing_locations(cond)
@@ -554,7 +588,15 @@ def _check_find_config(ctx: Ctx) -> None:
             if o[0] == "global":
                 d = repo.module(o[1].split(":")[0]).defs.get(o[1].split(":")[1]) if ":" in o[1] else None
                 if isinstance(d, ConstInfo) and isinstance(d.value, (ast.List, ast.Tuple)):
-                    vals = [e.value for e in d.value.elts if isinstance(e, ast.Constant)]
+                    vals = []
+                    for e in d.value.elts:
+                        if isinstance(e, ast.Constant):
+                            vals.append(e.value)
+                        elif isinstance(e, ast.Name):
+                            # an element spelled as a named constant of the module
+                            r_ = repo.lookup(e.id, d.module, None)
+                            if isinstance(r_, ConstInfo) and isinstance(r_.value, ast.Constant):
+                                vals.append(r_.value.value)
                     name_loop, names = h, vals
         if isinstance(h.ast.iter, (ast.List, ast.Tuple)):
             name_loop, names = h, [e.value for e in h.ast.iter.elts if isinstance(e, ast.Constant)]
